@@ -70,6 +70,9 @@ class sx_int(metaclass=_TypeShim):
             raise Unsupported("int() of a string rendered from a symbolic value")
         if _ri(x, SymBytes):
             x = x.concrete()
+        if type(x).__name__ == "SymStr":
+            from .sstr import sym_int
+            return sym_int(x, *a, **k)
         return int(x, *a, **k)
 
     @staticmethod
@@ -178,6 +181,8 @@ def sx_isinstance(o, c):
         return c is object or c is SymBytes
     if _ri(o, SymView):
         return c is memoryview or c is object
+    if type(o).__name__ == "SymStr":
+        return c is str or c is object
     try:
         return _ri(o, c)
     except TypeError:
@@ -410,6 +415,19 @@ def sx_all(it):
 
 
 def sx_contains(a, b):
+    if type(a).__name__ == "SymStr":
+        if _ri(b, str):
+            if len(a) == 1:
+                return bool(core.Or(*[a.items[0] == ord(ch) for ch in b])) if b else False
+            from .sstr import SymStr
+            return SymStr([ord(ch) for ch in b]).find(a) >= 0 if len(a) <= len(b) else False
+        if _ri(b, (list, tuple, set, frozenset, dict)):
+            for k in b:
+                if _ri(k, str) and a == k:
+                    return True
+            return False
+    if type(b).__name__ == "SymStr":
+        return b.__contains__(a)
     if _ri(a, (SymInt, SymBool)):
         if _ri(b, (dict, list, tuple, set, frozenset)) or type(b).__name__ in ("dict_keys", "dict_values"):
             for k in b:
@@ -458,6 +476,11 @@ def sx_getitem(b, a):
     if _ri(a, SymBytes) and _ri(b, dict):
         for k in b:
             if _ri(k, (bytes, SymBytes)) and a == k:
+                return b[k]
+        raise KeyError(SENTINEL)
+    if type(a).__name__ == "SymStr" and _ri(b, dict):
+        for k in b:
+            if _ri(k, str) and a == k:
                 return b[k]
         raise KeyError(SENTINEL)
     if _ri(a, slice) and _ri(b, (bytes, bytearray, list, tuple, str)) and any(_issym(x) for x in (a.start, a.stop)):
